@@ -11,6 +11,10 @@
 //	mode=retention  (C19)  generated retention period / group duration / check interval, writes around now−D,
 //	                       group layouts created directly, clock advances, retention changes, manual deletes,
 //	                       pinned (in-use) shards, service+client restart.
+//
+// The two sequential modes above never start the simulator's scheduler.  mode=concurrent (C18) and
+// mode=retention-concurrent (C19) run client goroutines under the baton scheduler, interleaved inside the calls of
+// meta.Client: see conc_test.go.
 package meta
 
 import (
@@ -62,6 +66,10 @@ type op struct {
 	N  int     `json:"n,omitempty"`  // an index, resolved modulo the current state
 	Lo int64   `json:"lo,omitempty"`
 	Hi int64   `json:"hi,omitempty"`
+	// concurrent modes (conc_test.go)
+	R int `json:"r,omitempty"` // round: the client operations carrying the same number run concurrently; 0 = done by the main goroutine between rounds
+	S int `json:"s,omitempty"` // round trigger: 0 = the clients start together, 1 = when the retention service starts a check, 2 = when that check reaches its prune step
+	W int `json:"w,omitempty"` // write through WritePointsPrivileged instead of MapShards
 }
 
 // ---------------------------------------------------------------------------------------------------------
@@ -276,8 +284,13 @@ func genRetention(r *hx.Run) []json.RawMessage {
 }
 
 func gen(r *hx.Run) []json.RawMessage {
-	if r.Cfg["mode"] == "retention" {
+	switch r.Cfg["mode"] {
+	case "retention":
 		return genRetention(r)
+	case "concurrent":
+		return genConcurrent(r)
+	case "retention-concurrent":
+		return genRetConcurrent(r)
 	}
 	return genShards(r)
 }
@@ -891,6 +904,10 @@ func exec(r *hx.Run, prog []json.RawMessage) {
 	mode := r.Cfg["mode"]
 	if mode == "" {
 		mode = "shards"
+	}
+	if mode == "concurrent" || mode == "retention-concurrent" {
+		execConcurrent(r, prog, mode == "retention-concurrent")
+		return
 	}
 	w := newWorld(r, mode)
 	if err := w.openClient(); err != nil {
